@@ -23,7 +23,7 @@
   Note `MIN % -1` does not trap (`srem` yields 0), so it is not in the set.
   Built-ins (T2), the check script and known findings are owned elsewhere.
 -/
-import RotoV.Lemmas.ScalarLower
+import RotoV.Lemmas.Scalar
 
 namespace RotoV.C10
 open RotoV RotoV.Gen RotoV.Gen.OpTables
@@ -40,14 +40,56 @@ def IsBinop (op : BinOp) : Prop := op ≠ .And ∧ op ≠ .Or
 
 instance (op : BinOp) : Decidable (IsBinop op) := by unfold IsBinop; infer_instance
 
-/-- in language terms: the compiled sequence traps exactly at the trap points. -/
-theorem intRun_panic_iff {k : IntKind} {sz : IntSize} (op : BinOp) (hop : IsBinop op) (a b : PInt k sz) :
-    intRun op a b = .panic ↔ TrapPoint op a b := by
-  cases op <;> simp [intRun, TrapPoint, IsBinop] at hop ⊢
-  case Div => by_cases h : b.val = 0 <;> simp [h]
+/-- instruction kinds whose compiled sequence cannot trap on same-typed integer operands, whatever
+    their condition code, destination or operand order. -/
+def NoTrapKind : Instruction → Prop
+  | .IntCmp .. | .Add .. | .Sub .. | .Mul .. | .CallEq .. => True
+  | _ => False
+
+/-- the generated `lower_binop` emits such an instruction for every operator but `/` and `%`
+    (deliberately coarse: a changed condition code is C01's business, not a trap). -/
+theorem lower_nontrapping (dbg : Bool) (k : IntKind) (sz : IntSize) (op : BinOp) (hop : IsBinop op)
+    (h1 : op ≠ .Div) (h2 : op ≠ .Mod) :
+    ∃ i, lower_binop dbg op (.Primitive (.Int k sz)) = .ok i ∧ NoTrapKind i := by
+  cases op <;> simp [IsBinop] at hop h1 h2 <;> cases k <;> cases sz <;> exact ⟨_, rfl, trivial⟩
+
+/-- for `/` and `%` the exact instruction matters: divisor on the right, `signed` flag of the type. -/
+theorem lower_div_mod (dbg : Bool) (k : IntKind) (sz : IntSize) :
+    lower_binop dbg .Div (.Primitive (.Int k sz)) = .ok (.Div (irTypeOf k sz) .lhs .rhs k.signed)
+    ∧ lower_binop dbg .Mod (.Primitive (.Int k sz)) = .ok (.Mod (irTypeOf k sz) .lhs .rhs k.signed) := by
+  cases k <;> cases sz <;> exact ⟨rfl, rfl⟩
 
 section
 variable [FloatOps]
+
+/-- a `NoTrapKind` instruction completes on integer operands of one type. -/
+theorem noTrapKind_runs (dbg : Bool) {k : IntKind} {sz : IntSize} (i : Instruction) (h : NoTrapKind i)
+    (a b : PInt k sz) : ∃ v, runInstr dbg i (operands (cvInt a) (cvInt b)) = .ok v := by
+  have hf := sz.cty_notFloat
+  have hop : ∀ s : Side, ∃ x : PInt k sz, operands (cvInt a) (cvInt b) s = cvInt x := by
+    intro s; cases s
+    · exact ⟨a, rfl⟩
+    · exact ⟨b, rfl⟩
+  cases i <;> simp only [NoTrapKind] at h
+  case IntCmp t cmp l r =>
+    obtain ⟨x, hx⟩ := hop l; obtain ⟨y, hy⟩ := hop r
+    exact ⟨_, by simp only [runInstr]; rw [hx, hy, cvInt, cvInt, cg_IntCmp_int dbg _ sz.cty hf rfl]⟩
+  case Add t l r =>
+    obtain ⟨x, hx⟩ := hop l; obtain ⟨y, hy⟩ := hop r
+    exact ⟨_, by simp only [runInstr]; rw [hx, hy, cvInt, cvInt, cg_Add_int dbg sz.cty hf rfl]⟩
+  case Sub t l r =>
+    obtain ⟨x, hx⟩ := hop l; obtain ⟨y, hy⟩ := hop r
+    exact ⟨_, by simp only [runInstr]; rw [hx, hy, cvInt, cvInt, cg_Sub_int dbg sz.cty hf rfl]⟩
+  case Mul t l r =>
+    obtain ⟨x, hx⟩ := hop l; obtain ⟨y, hy⟩ := hop r
+    exact ⟨_, by simp only [runInstr]; rw [hx, hy, cvInt, cvInt, cg_Mul_int dbg sz.cty hf rfl]⟩
+  case CallEq n l r =>
+    obtain ⟨x, hx⟩ := hop l; obtain ⟨y, hy⟩ := hop r
+    have hxf : (cvInt x).ty.isFloat = false := hf
+    exact ⟨_, by
+      simp only [runInstr]
+      rw [hx, hy]; simp only [hxf, Bool.false_eq_true, if_false]
+      rw [cvInt, cvInt, cg_IntCmp_int dbg _ sz.cty hf rfl]⟩
 
 /-- **(a)** For every integer type, every operator and all operands: `lower_binop` emits an
     instruction, and its compiled sequence traps iff the operator is `/` or `%` and the divisor is
@@ -56,12 +98,35 @@ theorem arith_traps_iff (dbg : Bool) (k : IntKind) (sz : IntSize) (op : BinOp) (
     (a b : PInt k sz) :
     ∃ i, lower_binop dbg op (.Primitive (.Int k sz)) = .ok i
       ∧ (runInstr dbg i (operands (cvInt a) (cvInt b)) = .panic ↔ TrapPoint op a b) := by
-  have : ∃ i, expectedInstr op k sz = some i := by
-    cases op <;> simp [IsBinop] at hop <;> exact ⟨_, rfl⟩
-  obtain ⟨i, hi⟩ := this
-  refine ⟨i, lower_binop_int dbg op k sz i hi, ?_⟩
-  rw [run_expected_eq dbg op k sz a b i hi]
-  exact intRun_panic_iff op hop a b
+  by_cases hd : op = .Div
+  · subst hd
+    refine ⟨_, (lower_div_mod dbg k sz).1, ?_⟩
+    simp only [runInstr, operands]
+    rw [cg_Div_pint]
+    by_cases h : b.val = 0 ∨ isMinDivNegOne a b
+    · simp only [if_pos h, TrapPoint, true_or, true_and, true_iff]
+      rcases h with h | h
+      · exact Or.inl h
+      · exact Or.inr h
+    · simp only [if_neg h, TrapPoint, true_or, true_and, reduceCtorEq, false_iff]
+      intro h'; exact h h'
+  by_cases hm : op = .Mod
+  · subst hm
+    refine ⟨_, (lower_div_mod dbg k sz).2, ?_⟩
+    simp only [runInstr, operands]
+    rw [cg_Mod_pint]
+    by_cases h : b.val = 0
+    · simp [TrapPoint, h]
+    · simp [TrapPoint, h]
+  obtain ⟨i, hl, hk⟩ := lower_nontrapping dbg k sz op hop hd hm
+  obtain ⟨v, hv⟩ := noTrapKind_runs dbg i hk a b
+  refine ⟨i, hl, ?_⟩
+  rw [hv]
+  constructor
+  · intro h; cases h
+  · intro h; rcases h.1 with h | h
+    · exact absurd h hd
+    · exact absurd h hm
 
 /-- non-vacuity: trap points exist and non-trap points exist (`1i32 / 0` vs `1i32 / 1`);
     `i8::MIN % -1` is not a trap point. -/
